@@ -20,7 +20,7 @@ LEVEL = "exploration"
 BUDGET = {"quick": 40000, "thorough": 500000}
 RULE = (
     "each run draws a streaming tool (zip map filter filterfalse enumerate accumulate batched chain compress "
-    "dropwhile takewhile islice pairwise starmap zip_longest merge tee groupby) or a single-pass aggregation (all any sum "
+    "dropwhile takewhile islice pairwise starmap zip_longest merge tee groupby chain.from_iterable) or a single-pass aggregation (all any sum "
     "min max reduce nlargest nsmallest), 1..3 streams of 50..6000 fresh items (async generator or class-based "
     "iterator, suspending every k-th pull), window parameters, and for tee a seeded pattern of child progress and "
     "early closes. Oracle at every consumer step / source pull: live weakrefs among delivered items <= 4*sources + "
@@ -37,7 +37,7 @@ ASSUMPTIONS = [
 PROBES = ("len>=800", "tee_lagging_child_closed", "aggregation", "multi_source", "window_tool")
 
 TOOLS = ("zip", "map", "filter", "filterfalse", "enumerate", "accumulate", "batched", "chain", "compress",
-         "dropwhile", "takewhile", "islice", "pairwise", "starmap", "zip_longest", "merge", "tee", "groupby",
+         "dropwhile", "takewhile", "islice", "pairwise", "starmap", "zip_longest", "merge", "tee", "groupby", "chain_from_iterable",
          "all", "any", "sum", "min", "max", "reduce", "nlargest", "nsmallest")
 AGGS = ("all", "any", "sum", "min", "max", "reduce", "nlargest", "nsmallest")
 
@@ -178,6 +178,8 @@ def execute(st, ctx):
         window = nsrc
     elif tool == "pairwise":
         window = 1
+    elif tool == "chain_from_iterable":
+        window = 1 + sc["n"] % 7  # one member (a small container of items) at a time
     base = 4 * nsrc + window
     cnt.bound = base
 
@@ -188,7 +190,7 @@ def execute(st, ctx):
     elif tool in ("max", "nlargest"):
         keyfn = lambda i: i  # noqa: E731
     elif tool == "groupby":
-        keyfn = lambda i: i // (1 + sc["n"] % 3)  # noqa: E731  (many short runs)
+        keyfn = lambda i: i // (1, 2, 3, 200)[sc["n"] % 4]  # noqa: E731  (many short runs, or long ones)
     else:
         keyfn = lambda i: i % 5  # noqa: E731
     wrap = (lambda item: (item, item)) if tool == "starmap" else None
@@ -265,6 +267,31 @@ def execute(st, ctx):
             res["end"] = "stop"
             return
         S = streams
+        if tool == "chain_from_iterable":
+            size = 1 + sc["n"] % 7
+            inner = S[0]
+            del S
+
+            async def members():
+                # lazily supplied container members: lists (or tuples) of fresh items
+                batch = []
+                async for item in inner:
+                    batch.append(item)
+                    del item
+                    if len(batch) == size:
+                        yield batch if sc["every"] != 7 else tuple(batch)
+                        batch = []
+                if batch:
+                    yield batch
+
+            it = L.chain.from_iterable(members())
+            async for item in it:
+                del item
+                res["steps"] += 1
+                if cnt.alive > cnt.bound and cnt.over is None:
+                    cnt.over = (cnt.alive, cnt.delivered)
+            res["end"] = "stop"
+            return
         if tool == "groupby":
             keysel, consume = sc["gb"]
             if keysel == 0:
